@@ -42,6 +42,13 @@ def _parse_indexed_attr(attr):
 	return (attr, None)
 
 
+def _reflected(op_func):
+	"""op_func with its operands swapped: (column, other) -> op_func(other, column)."""
+	def reflected(col, other):
+		return op_func(other, col)
+	return reflected
+
+
 def _resolve_binary_name(left_name, right_name):
 	"""
 	Apply left-biased naming rules for binary operations between columns.
@@ -1013,6 +1020,45 @@ class Table(Vector):
 	
 	def __pow__(self, other):
 		return self._table_elementwise_operation(other, operator.pow, '__pow__', '**')
+
+	# Reflected and unary operators: column by column, like the forward ones (without
+	# these, Python falls back to the Vector versions, which iterate the ROWS of a table)
+	def __radd__(self, other):
+		return self._table_elementwise_operation(other, _reflected(operator.add), '__radd__', '+')
+	
+	def __rsub__(self, other):
+		return self._table_elementwise_operation(other, _reflected(operator.sub), '__rsub__', '-')
+	
+	def __rmul__(self, other):
+		return self._table_elementwise_operation(other, _reflected(operator.mul), '__rmul__', '*')
+	
+	def __rtruediv__(self, other):
+		return self._table_elementwise_operation(other, _reflected(operator.truediv), '__rtruediv__', '/')
+	
+	def __rfloordiv__(self, other):
+		return self._table_elementwise_operation(other, _reflected(operator.floordiv), '__rfloordiv__', '//')
+	
+	def __rmod__(self, other):
+		return self._table_elementwise_operation(other, _reflected(operator.mod), '__rmod__', '%')
+	
+	def __rpow__(self, other):
+		return self._table_elementwise_operation(other, _reflected(operator.pow), '__rpow__', '**')
+	
+	def _table_unary_operation(self, op_func):
+		"""Apply a unary operator to every column (each result keeps its column's name)."""
+		return Table(tuple(op_func(col) for col in self.cols()))
+	
+	def __neg__(self):
+		return self._table_unary_operation(operator.neg)
+	
+	def __pos__(self):
+		return self._table_unary_operation(operator.pos)
+	
+	def __abs__(self):
+		return self._table_unary_operation(operator.abs)
+	
+	def __invert__(self):
+		return self._table_unary_operation(operator.invert)
 
 	@staticmethod
 	def _validate_key_tuple_hashable(key_tuple, key_cols, row_idx):
